@@ -1181,7 +1181,7 @@ class AdaptiveGridArchive(Archive):
         self._contents.append(solution)
         index = self.find_index(solution)
 
-        if index < 0:
+        if index < 0 or not all(nondominated):
             self.adapt_grid()
             index = self.find_index(solution)
         else:
